@@ -45,6 +45,7 @@ def run(ctx):
     texts = [G5.render(rng, G5.document(rng)) for _ in range(ctx.n(3000, 60000))]
     texts += ['Files: *\nCopyright: x\nLicense: y\nFoo: a\n b\n', 'Format: f\nX-A: a\n b\n .\n  c\n\nFiles: *\nCopyright: 2019 x\nLicense: MIT\n t\n']
     fails = ctx.prop('prop:render-fixpoint', texts, p_fixpoint)
+    fails += ctx.prop('prop:observing-changes-nothing', texts[:ctx.n(700, 8000)], _copy.p_observe)
     bad = ctx.compare('corr:copyright', [('copyright_from_text', [t]) for t in texts], _copy.impl)
     second = []
     for t in texts[:ctx.n(1200, 30000)]:
